@@ -41,5 +41,78 @@ def document_witness(chk):
     chk.samples.append({'document_witness': {'orders': len(orders), 'versions': versions, 'native_summary': {k: r.get(k) for k in ('same_across_orders', 'same_twice', 'refs_resolve')}}})
 
 
+def document_version_flow(chk):
+    """ApiDescription::openapi / OpenApiDefinition::{new, json, write}: the version the document is generated for (the one handed to
+    gen_openapi, hence to HttpRouter::endpoints) is exactly the version the caller asked for, and the document's info.version is its
+    rendering.  gen_openapi itself is replaced by a stub recording its arguments (its operation set is the iterator checked above)."""
+    import glob, os, re
+    import z3
+    from mirsym import mir
+    from mirsym.core import Cell, Opaque, Ref, Tup, Unsupported, dv
+    from mirsym.runner import Inconclusive, REPO
+    from props.vermodel import V, v_eq, concretise
+    ex = router_run.G['ex']
+    f = ex.fns
+    F_openapi = mir.find(f, r'api_description::<impl at [^>]*>::openapi$')
+    outs_fns = {name: [n for n in mir.find(f, r'api_description::<impl at [^>]*>::' + name + '$', unique=False) if 'OpenApiDefinition' in f[n].locals.get('_1', '')] for name in ('json', 'write')}
+    for k_, v_ in outs_fns.items():
+        if len(v_) != 1: raise Inconclusive(f'cannot locate OpenApiDefinition::{k_}: {v_}')
+    lock = open(os.path.join(REPO, 'Cargo.lock')).read()
+    for ver in re.findall(r'name = "openapiv3"\nversion = "([^"]+)"', lock):
+        for p_ in glob.glob(os.path.expanduser(f'~/.cargo/registry/src/*/openapiv3-{ver}/src/info.rs')): ex.L.add_source(p_, only={'Info'})
+    want = V('document_version')
+    rec = {}
+    def m_gen(ex, a, c):
+        rec['info'], rec['version'] = dv(a[1]), dv(a[2])
+        return Opaque('openapi-document')
+    local = [(r'gen_openapi$', m_gen, True), (r'<(semver::)?Version as ToString>::to_string$', lambda ex, a, c: Opaque('rendered-version', dv(a[0]))),
+             (r'^(serde_json::)?to_value::|^(serde_json::)?to_writer_pretty::', lambda ex, a, c: ex.ok(Opaque('json', dv(a[-1])))),
+             (r'<dyn (std::io::)?Write as (std::io::)?Write>::write_fmt$|<dyn (std::io::)?Write as (std::io::)?Write>::write_all$', lambda ex, a, c: ex.ok(Tup([]))),
+             (r'<S as AsRef<str>>::as_ref$', lambda ex, a, c: dv(a[0])), (r'<(openapiv3::)?Info as Clone>::clone$', lambda ex, a, c: dv(a[0]))]
+    saved = ex.models
+    ex.models = local + ex.models
+    try:
+        for name, (F_out,) in outs_fns.items():
+            def h(ex):
+                rec.clear()
+                od = ex.call_fn(F_openapi, [Ref(Cell(Opaque('api-description'))), 'title', want.adt()])
+                args = [Ref(Cell(od))] + ([Opaque('writer')] if name == 'write' else [])
+                ex.call_fn(F_out, args)
+                return dict(rec)
+            outs = ex.explore(h, want.wf())
+            chk.paths += len(outs)
+            n = 0
+            for pc, (k, r) in outs:
+                if k != 'ok' or 'version' not in r:
+                    m = chk.prove(f'document-version/{name}/reaches-generation', pc, z3.BoolVal(True), extra=want.wf())
+                    if m is not None: chk.mismatches.append(f'OpenApiDefinition::{name} does not reach gen_openapi: {r}')
+                    continue
+                n += 1
+                info_v = dv(ex.field(r['info'], 'version').v)
+                rendered_same = isinstance(info_v, Opaque) and info_v.tag == 'rendered-version'
+                bad = [z3.Not(v_eq(r['version'], want)), z3.BoolVal(not rendered_same)]
+                if rendered_same: bad.append(z3.Not(v_eq(info_v.payload, want)))
+                m = chk.prove(f'document-version/{name}/generated-for-exactly-the-requested-version', pc, z3.Or(bad), extra=want.wf())
+                if m is not None:
+                    c = concretise(m, [want])
+                    eps = [{'id': 'old', 'method': 'GET', 'path': '/a', 'versions': {'k': 'Until', 'b': '%d.%d.%d' % tuple(m.eval(t, model_completion=True).as_long() for t in (want.major, want.minor, want.patch))}},
+                           {'id': 'new', 'method': 'GET', 'path': '/a', 'versions': {'k': 'From', 'a': '%d.%d.%d' % tuple(m.eval(t, model_completion=True).as_long() for t in (want.major, want.minor, want.patch))}}]
+                    case = {'op': 'openapi', 'endpoints': eps, 'orders': [[0, 1]], 'versions': [c[want.name]]}
+                    nat = replay([case])[0]
+                    ops = (nat.get('per_version') or [{}])[0].get('operations')
+                    served = 'old' if ('-' in c[want.name]) else 'new'       # a pre-release of x.y.z precedes x.y.z
+                    good = ops is not None and sorted(o[2] for o in ops if o[2] != 'doc_endpoint') == [served]
+                    chk.counterexample(f'the document is generated for {r["version"]} / info.version {info_v}, not for the requested version: document for {c[want.name]} of an API '
+                                       f'with `until x.y.z` / `from x.y.z` lists {ops}', case, not good, role='document-version')
+            if not n: raise Inconclusive(f'vacuity: OpenApiDefinition::{name} never reaches gen_openapi; {ex.unsupported_paths[-2:]}')
+    finally:
+        ex.models = saved
+
+
+def before_finish(chk):
+    document_witness(chk)
+    document_version_flow(chk)
+
+
 def run(tier, replay_file=None):
-    return router_run.run('C06', tier, replay_file, before_finish=document_witness)
+    return router_run.run('C06', tier, replay_file, before_finish=before_finish)
